@@ -1,5 +1,6 @@
 use vstd::prelude::*;
 use crate::shim::*;
+use crate::alg::*;
 
 // ---------- sums over sequences of scalars ----------
 pub open spec fn sum(s: Seq<T>) -> real decreases s.len() {
@@ -40,4 +41,280 @@ pub open spec fn wpush(w: Seq<T>, x: T, n: nat) -> Seq<T> {
     if w.len() >= n && w.len() > 0 { w.drop_first().push(x) } else { w.push(x) }
 }
 
-pub broadcast group group_lem { lemma_sum_push, lemma_sum_drop_first, lemma_sum_subrange1, lemma_sum_empty }
+
+// ---------- sum of squares ----------
+pub open spec fn sumsq(s: Seq<T>) -> real decreases s.len() {
+    if s.len() == 0 { 0real } else { sumsq(s.drop_last()) + s.last().v() * s.last().v() }
+}
+pub broadcast proof fn lemma_sumsq_push(s: Seq<T>, x: T)
+    ensures #[trigger] sumsq(s.push(x)) == sumsq(s) + x.v() * x.v()
+{
+    assert(s.push(x).drop_last() =~= s);
+}
+pub broadcast proof fn lemma_sumsq_drop_first(s: Seq<T>)
+    requires s.len() > 0
+    ensures #[trigger] sumsq(s.drop_first()) == sumsq(s) - s[0].v() * s[0].v()
+    decreases s.len()
+{
+    if s.len() == 1 {
+        assert(s.drop_first() =~= Seq::<T>::empty());
+        assert(s.drop_last() =~= Seq::<T>::empty());
+    } else {
+        lemma_sumsq_drop_first(s.drop_last());
+        assert(s.drop_first().drop_last() =~= s.drop_last().drop_first());
+    }
+}
+pub broadcast proof fn lemma_sumsq_subrange1(s: Seq<T>)
+    requires s.len() > 0
+    ensures #[trigger] sumsq(s.subrange(1, s.len() as int)) == sumsq(s) - s[0].v() * s[0].v()
+{
+    lemma_sumsq_drop_first(s);
+    assert(s.subrange(1, s.len() as int) =~= s.drop_first());
+}
+
+// ---------- minimum / maximum of a non-empty sequence ----------
+pub open spec fn smin(s: Seq<T>) -> real decreases s.len() {
+    if s.len() == 0 { 0real } else if s.len() == 1 { s[0].v() } else {
+        let m = smin(s.drop_last()); if s.last().v() < m { s.last().v() } else { m } }
+}
+pub open spec fn smax(s: Seq<T>) -> real decreases s.len() {
+    if s.len() == 0 { 0real } else if s.len() == 1 { s[0].v() } else {
+        let m = smax(s.drop_last()); if s.last().v() > m { s.last().v() } else { m } }
+}
+pub proof fn lemma_smin_is_min(s: Seq<T>)
+    requires s.len() > 0
+    ensures forall|i: int| 0 <= i < s.len() ==> smin(s) <= #[trigger] s[i].v(), exists|i: int| 0 <= i < s.len() && smin(s) == s[i].v()
+    decreases s.len()
+{
+    if s.len() > 1 {
+        lemma_smin_is_min(s.drop_last());
+        let j = choose|i: int| 0 <= i < s.drop_last().len() && smin(s.drop_last()) == s.drop_last()[i].v();
+        assert(s.drop_last()[j] == s[j]);
+        assert forall|i: int| 0 <= i < s.len() implies smin(s) <= #[trigger] s[i].v() by {
+            if i < s.len() - 1 { assert(s.drop_last()[i] == s[i]); }
+        }
+        if s.last().v() < smin(s.drop_last()) { assert(smin(s) == s[s.len() - 1].v()); } else { assert(smin(s) == s[j].v()); }
+    } else { assert(smin(s) == s[0].v()); }
+}
+pub proof fn lemma_smax_is_max(s: Seq<T>)
+    requires s.len() > 0
+    ensures forall|i: int| 0 <= i < s.len() ==> smax(s) >= #[trigger] s[i].v(), exists|i: int| 0 <= i < s.len() && smax(s) == s[i].v()
+    decreases s.len()
+{
+    if s.len() > 1 {
+        lemma_smax_is_max(s.drop_last());
+        let j = choose|i: int| 0 <= i < s.drop_last().len() && smax(s.drop_last()) == s.drop_last()[i].v();
+        assert(s.drop_last()[j] == s[j]);
+        assert forall|i: int| 0 <= i < s.len() implies smax(s) >= #[trigger] s[i].v() by {
+            if i < s.len() - 1 { assert(s.drop_last()[i] == s[i]); }
+        }
+        if s.last().v() > smax(s.drop_last()) { assert(smax(s) == s[s.len() - 1].v()); } else { assert(smax(s) == s[j].v()); }
+    } else { assert(smax(s) == s[0].v()); }
+}
+// a value that is <= all elements and attained IS smin (uniqueness)
+pub proof fn lemma_smin_unique(m: real, s: Seq<T>)
+    requires s.len() > 0, forall|i: int| 0 <= i < s.len() ==> m <= #[trigger] s[i].v(), exists|i: int| 0 <= i < s.len() && m == s[i].v()
+    ensures m == smin(s)
+{
+    lemma_smin_is_min(s);
+    let a = choose|i: int| 0 <= i < s.len() && m == s[i].v();
+    let b = choose|i: int| 0 <= i < s.len() && smin(s) == s[i].v();
+    assert(m <= s[b].v()); assert(smin(s) <= s[a].v());
+}
+pub proof fn lemma_smax_unique(m: real, s: Seq<T>)
+    requires s.len() > 0, forall|i: int| 0 <= i < s.len() ==> m >= #[trigger] s[i].v(), exists|i: int| 0 <= i < s.len() && m == s[i].v()
+    ensures m == smax(s)
+{
+    lemma_smax_is_max(s);
+    let a = choose|i: int| 0 <= i < s.len() && m == s[i].v();
+    let b = choose|i: int| 0 <= i < s.len() && smax(s) == s[i].v();
+    assert(m >= s[b].v()); assert(smax(s) >= s[a].v());
+}
+pub broadcast proof fn lemma_is_min_of(m: T, s: Seq<T>)
+    requires s.len() > 0, #[trigger] is_min_of(m, s)
+    ensures m.v() == smin(s)
+{
+    let a = choose|i: int| 0 <= i < s.len() && m == s[i];
+    assert(m.v() == s[a].v());
+    lemma_smin_unique(m.v(), s);
+}
+pub broadcast proof fn lemma_is_max_of(m: T, s: Seq<T>)
+    requires s.len() > 0, #[trigger] is_max_of(m, s)
+    ensures m.v() == smax(s)
+{
+    let a = choose|i: int| 0 <= i < s.len() && m == s[i];
+    assert(m.v() == s[a].v());
+    lemma_smax_unique(m.v(), s);
+}
+pub broadcast proof fn lemma_smin_push(s: Seq<T>, x: T)
+    ensures #[trigger] smin(s.push(x)) == (if s.len() == 0 { x.v() } else if x.v() < smin(s) { x.v() } else { smin(s) })
+{
+    assert(s.push(x).drop_last() =~= s);
+}
+pub broadcast proof fn lemma_smax_push(s: Seq<T>, x: T)
+    ensures #[trigger] smax(s.push(x)) == (if s.len() == 0 { x.v() } else if x.v() > smax(s) { x.v() } else { smax(s) })
+{
+    assert(s.push(x).drop_last() =~= s);
+}
+// evicting an element that is not the (unique-valued) minimum leaves the minimum unchanged
+pub broadcast proof fn lemma_smin_drop_first(s: Seq<T>)
+    requires s.len() > 1, s[0].v() != smin(s)
+    ensures #[trigger] smin(s.drop_first()) == smin(s)
+{
+    lemma_smin_is_min(s);
+    let a = choose|i: int| 0 <= i < s.len() && smin(s) == s[i].v();
+    let t = s.drop_first();
+    assert(t[a - 1] == s[a]);
+    assert forall|i: int| 0 <= i < t.len() implies smin(s) <= #[trigger] t[i].v() by { assert(t[i] == s[i + 1]); }
+    lemma_smin_unique(smin(s), t);
+}
+pub broadcast proof fn lemma_smax_drop_first(s: Seq<T>)
+    requires s.len() > 1, s[0].v() != smax(s)
+    ensures #[trigger] smax(s.drop_first()) == smax(s)
+{
+    lemma_smax_is_max(s);
+    let a = choose|i: int| 0 <= i < s.len() && smax(s) == s[i].v();
+    let t = s.drop_first();
+    assert(t[a - 1] == s[a]);
+    assert forall|i: int| 0 <= i < t.len() implies smax(s) >= #[trigger] t[i].v() by { assert(t[i] == s[i + 1]); }
+    lemma_smax_unique(smax(s), t);
+}
+pub broadcast proof fn lemma_smin_subrange1(s: Seq<T>)
+    requires s.len() > 1, s[0].v() != smin(s)
+    ensures #[trigger] smin(s.subrange(1, s.len() as int)) == smin(s)
+{
+    lemma_smin_drop_first(s); assert(s.subrange(1, s.len() as int) =~= s.drop_first());
+}
+pub broadcast proof fn lemma_smax_subrange1(s: Seq<T>)
+    requires s.len() > 1, s[0].v() != smax(s)
+    ensures #[trigger] smax(s.subrange(1, s.len() as int)) == smax(s)
+{
+    lemma_smax_drop_first(s); assert(s.subrange(1, s.len() as int) =~= s.drop_first());
+}
+pub broadcast proof fn lemma_smin_le_first(s: Seq<T>)
+    requires s.len() > 0
+    ensures #[trigger] smin(s) <= s[0].v(), smin(s) <= s.last().v()
+{ lemma_smin_is_min(s); }
+pub broadcast proof fn lemma_smax_ge_first(s: Seq<T>)
+    requires s.len() > 0
+    ensures #[trigger] smax(s) >= s[0].v(), smax(s) >= s.last().v()
+{ lemma_smax_is_max(s); }
+
+// ---------- BinaryEntropy: count of non-negative values; newest-first window ----------
+// the deque is newest-first: push_front / pop_back
+pub open spec fn nonneg_count(s: Seq<T>) -> nat decreases s.len() {
+    if s.len() == 0 { 0 } else { nonneg_count(s.drop_last()) + (if s.last().v() >= 0real { 1nat } else { 0nat }) }
+}
+pub open spec fn wpush_front(w: Seq<T>, y: T, n: nat) -> Seq<T> {
+    if w.len() >= n && w.len() > 0 { seq![y] + w.drop_last() } else { seq![y] + w }
+}
+pub broadcast proof fn lemma_nonneg_count_front(s: Seq<T>, y: T)
+    ensures #[trigger] nonneg_count(seq![y] + s) == nonneg_count(s) + (if y.v() >= 0real { 1nat } else { 0nat }),
+    decreases s.len()
+{
+    if s.len() == 0 {
+        assert(seq![y] + s =~= seq![y]);
+        assert(seq![y].drop_last() =~= Seq::<T>::empty());
+        assert(seq![y].last() == y);
+        assert(nonneg_count(Seq::<T>::empty()) == 0);
+    } else {
+        lemma_nonneg_count_front(s.drop_last(), y);
+        assert((seq![y] + s).drop_last() =~= seq![y] + s.drop_last());
+        assert((seq![y] + s).last() == s.last());
+    }
+}
+pub broadcast proof fn lemma_nonneg_count_le(s: Seq<T>)
+    ensures #[trigger] nonneg_count(s) <= s.len(),
+        s.len() > 0 ==> nonneg_count(s.drop_last()) <= s.len() - 1
+            && nonneg_count(s) == nonneg_count(s.drop_last()) + (if s.last().v() >= 0real { 1nat } else { 0nat }),
+    decreases s.len()
+{ if s.len() > 0 { lemma_nonneg_count_le(s.drop_last()); } }
+
+// ---------- Welford: running mean / sum of squared deviations of a window (division-free characterisation) ----------
+pub open spec fn wstats(w: Seq<T>, count: nat, mean: real, m2: real) -> bool {
+    &&& count == w.len()
+    &&& mean * (count as real) == sum(w)
+    &&& m2 * (count as real) == (count as real) * sumsq(w) - sum(w) * sum(w)
+    &&& (count == 0 ==> mean == 0real && m2 == 0real)
+}
+// marker used as a stable quantifier trigger in helper contracts (see welford_online.vc)
+pub open spec fn wmark(w: Seq<T>) -> bool { true }
+pub proof fn lemma_welford_add(w: Seq<T>, mean: real, m2: real, x: T, mean1: real, m21: real)
+    requires wstats(w, w.len(), mean, m2),
+        mean1 == mean + rdiv(x.v() - mean, (w.len() + 1) as real),
+        m21 == m2 + (x.v() - mean) * (x.v() - mean1),
+    ensures wstats(w.push(x), w.len() + 1, mean1, m21)
+{
+    let n = w.len() as real; let xv = x.v();
+    let e = rdiv(xv - mean, n + 1real);
+    lemma_rdiv_mul(xv - mean, n + 1real);
+    lemma_sum_push(w, x); lemma_sumsq_push(w, x);
+    assert((w.len() + 1) as real == n + 1real);
+    if w.len() == 0 {
+        assert(e * 1real == xv) by(nonlinear_arith) requires e * (n + 1real) == xv - mean, n == 0real, mean == 0real;
+        assert(mean1 == xv);
+        assert((xv - mean) * (xv - mean1) == 0real) by(nonlinear_arith) requires xv - mean1 == 0real;
+        assert(mean1 * 1real == xv) by(nonlinear_arith) requires mean1 == xv;
+        assert(m21 * 1real == 0real) by(nonlinear_arith) requires m21 == 0real;
+        assert(1real * (xv * xv) - xv * xv == 0real) by(nonlinear_arith);
+    } else {
+        welford_add_core(n, mean, sum(w), sumsq(w), m2, xv, e, mean1, m21);
+    }
+}
+pub proof fn lemma_welford_remove(w: Seq<T>, mean: real, m2: real, mean1: real, m21: real)
+    requires w.len() >= 2, wstats(w, w.len(), mean, m2),
+        mean1 == mean - rdiv(w[0].v() - mean, (w.len() - 1) as real),
+        m21 == m2 - (w[0].v() - mean) * (w[0].v() - mean1),
+    ensures wstats(w.drop_first(), (w.len() - 1) as nat, mean1, m21)
+{
+    let n = w.len() as real; let xv = w[0].v();
+    let e = rdiv(xv - mean, n - 1real);
+    lemma_rdiv_mul(xv - mean, n - 1real);
+    lemma_sum_drop_first(w); lemma_sumsq_drop_first(w);
+    assert((w.len() - 1) as real == n - 1real);
+    welford_remove_core(n, mean, sum(w), sumsq(w), m2, xv, e, mean1, m21);
+}
+pub proof fn lemma_rdiv_unique(c: real, a: real, b: real)
+    requires b != 0real, c * b == a
+    ensures c == rdiv(a, b)
+{
+    lemma_rdiv_mul(a, b);
+    assert(c == rdiv(a, b)) by(nonlinear_arith) requires c * b == a, rdiv(a, b) * b == a, b != 0real;
+}
+
+// ---------- division ----------
+pub broadcast proof fn lemma_rdiv_mul(a: real, b: real)
+    requires b != 0real
+    ensures #[trigger] rdiv(a, b) * b == a
+{
+    assert(rdiv(a, b) * b == a) by(nonlinear_arith) requires b != 0real, rdiv(a, b) == a / b;
+}
+pub broadcast proof fn lemma_rdiv_sign(a: real, b: real)
+    requires b > 0real
+    ensures
+        a >= 0real ==> #[trigger] rdiv(a, b) >= 0real,
+        a > 0real ==> rdiv(a, b) > 0real,
+        a <= 0real ==> rdiv(a, b) <= 0real,
+        a < 0real ==> rdiv(a, b) < 0real,
+        a < b ==> rdiv(a, b) < 1real,
+        a <= b ==> rdiv(a, b) <= 1real,
+        a == b ==> rdiv(a, b) == 1real,
+        a >= -b ==> rdiv(a, b) >= -1real,
+        a > -b ==> rdiv(a, b) > -1real,
+        a == 0real ==> rdiv(a, b) == 0real,
+{
+    let q = rdiv(a, b);
+    assert(q * b == a) by(nonlinear_arith) requires b > 0real, q == a / b;
+    assert(a >= 0real ==> q >= 0real) by(nonlinear_arith) requires q * b == a, b > 0real;
+    assert(a > 0real ==> q > 0real) by(nonlinear_arith) requires q * b == a, b > 0real;
+    assert(a <= 0real ==> q <= 0real) by(nonlinear_arith) requires q * b == a, b > 0real;
+    assert(a < 0real ==> q < 0real) by(nonlinear_arith) requires q * b == a, b > 0real;
+    assert(a < b ==> q < 1real) by(nonlinear_arith) requires q * b == a, b > 0real;
+    assert(a <= b ==> q <= 1real) by(nonlinear_arith) requires q * b == a, b > 0real;
+    assert(a == b ==> q == 1real) by(nonlinear_arith) requires q * b == a, b > 0real;
+    assert(a >= -b ==> q >= -1real) by(nonlinear_arith) requires q * b == a, b > 0real;
+    assert(a > -b ==> q > -1real) by(nonlinear_arith) requires q * b == a, b > 0real;
+    assert(a == 0real ==> q == 0real) by(nonlinear_arith) requires q * b == a, b > 0real;
+}
+
+pub broadcast group group_lem { lemma_nonneg_count_front, lemma_nonneg_count_le, lemma_rdiv_mul, lemma_rdiv_sign, lemma_sumsq_push, lemma_sumsq_drop_first, lemma_sumsq_subrange1, lemma_is_min_of, lemma_is_max_of, lemma_smin_push, lemma_smax_push, lemma_smin_drop_first, lemma_smax_drop_first, lemma_smin_subrange1, lemma_smax_subrange1, lemma_smin_le_first, lemma_smax_ge_first, lemma_sum_push, lemma_sum_drop_first, lemma_sum_subrange1, lemma_sum_empty }
